@@ -4,13 +4,33 @@ import json, sys
 pid = sys.argv[1]
 round2 = len(sys.argv) > 2
 p = [json.loads(l) for l in open('/verif/properties.jsonl') if json.loads(l)['id'] == pid][0]
-wt = '/tmp/seed%s_%s' % ('2' if len(sys.argv) > 2 else '', pid)
+rnd = sys.argv[2] if len(sys.argv) > 2 else ''
+wt = '/tmp/seed%s_%s' % ({'': '', 'r2': '2', 'r3': '3'}.get(rnd, '2'), pid)
+EXTRA = ''
+if rnd == 'r2':
+    EXTRA = ("ADDITIONAL REQUIREMENT FOR THIS ROUND: an earlier round already produced the obvious single-function slips for this property. "
+             "Aim for changes of a different nature: (1) a change whose effect depends on HISTORY or ORDER (a cache, accumulated state between calls, "
+             "iteration order of a dict/set, order in which items were inserted), or (2) a change that is only wrong for inputs at the edge of the "
+             "documented domain (empty collections, a single element, residue numbers <= 0 or non-consecutive, repeated names, several chains, "
+             "insertion codes, very long names), or (3) two edits in different functions/files that are each harmless alone.")
+if rnd == 'r3':
+    EXTRA = ("ADDITIONAL REQUIREMENT FOR THIS ROUND: two earlier rounds already produced single-function slips and history/edge-of-domain changes "
+             "for this property. This time aim at what only shows END TO END: (1) a change that manifests only for a particular COMBINATION of "
+             "command-line options of bin/martinize2 (for example a Go model with several chains, -water-bias, -merge with several chain sets, "
+             "-resid input, -sep, -ss / -collagen, -elastic with -eunit regions, -cys, -nt, -mutate / -modify on terminal residues, -go-write-file "
+             "followed by -go <file>) or only with particular SHIPPED DATA (one specific residue type, modification, link, mapping or force field "
+             "under vermouth/data), or (2) a change in the glue code (bin/martinize2, vermouth/processors/*.py run_system / run_molecule wrappers, "
+             "vermouth/system.py, vermouth/forcefield.py, vermouth/map_input.py) rather than in the core function the property names, or (3) a change "
+             "that is correct for the first molecule / chain / file and wrong for later ones. Your demo may drive the real command line "
+             "(run <tree>/bin/martinize2 with PYTHONPATH=<tree> as a subprocess on structures under <tree>/vermouth/tests/data/integration_tests) "
+             "or the library. Name the two changes e and f (directories out/e and out/f).")
 print(f"""You are helping to evaluate a verification framework by producing realistic, subtle bugs ("seeded changes") in an open-source Python project. The project is vermouth-martinize (Martinize2: converts atomistic molecular structures to coarse-grained topologies), a git repository at /repo.
 
 STRICT RULES
 - Never edit anything in /repo itself and never read, list or write anything under /verif. Work only in your own scratch git worktree, created with:
     git -C /repo worktree add --detach {wt} HEAD
   (if it already exists, remove it first with `git -C /repo worktree remove --force {wt}`).
+- Never use `git stash` (the stash is shared by all worktrees of /repo and other agents work in theirs): to switch between your two changes use `git diff > file`, `git checkout -- .` and `git apply file`.
 - Python interpreter with all dependencies: /venv/bin/python . Run code against your tree with `cd {wt} && PYTHONPATH={wt} /venv/bin/python ...`.
 - The existing test suite is run with:  cd {wt} && /venv/bin/python -m pytest -q -p no:cacheprovider --timeout=900 --continue-on-collection-errors
   On the unmodified tree it gives 2096 passed and 14 collection errors (those 14 test files fail to collect in this environment; that is the expected baseline, takes ~50 s). No network is available.
@@ -35,4 +55,5 @@ For each change X in {{a, b}} create the directory {wt}/out/X/ containing
   - notes.md   : 5-15 lines: which clause of the property is broken, what exactly is needed for it to manifest, why the existing tests do not notice.
 Verify all of this yourself: (i) unmodified tree: demo exits 0; (ii) patched tree: demo exits 1; (iii) patched tree: full test suite still 2096 passed / 14 errors / 0 failed. When you are done, make sure the worktree's tracked files are back at HEAD (git -C {wt} checkout -- .) with out/ left in place (untracked), and do NOT remove the worktree.
 
-Final answer: for each of a and b, one short paragraph (file/function changed, what breaks, what it needs to manifest) and confirmation of the three verifications with the observed test-suite summary line.""")
+Final answer: for each of a and b, one short paragraph (file/function changed, what breaks, what it needs to manifest) and confirmation of the three verifications with the observed test-suite summary line.
+{EXTRA}""")
